@@ -48,7 +48,7 @@ def _pick(res, operands):
 
 
 class Run:
-    __slots__ = ("status", "exc", "msg", "value", "unsat", "mism", "triple_ok", "body_start", "res")
+    __slots__ = ("status", "exc", "msg", "value", "unsat", "mism", "triple_ok", "body_start", "res", "pin_end")
 
 
 def run_guarded(prog, vec, n, p, real, guards, ign=False, sites=False):
@@ -60,9 +60,16 @@ def run_guarded(prog, vec, n, p, real, guards, ign=False, sites=False):
     operands = [E.make_operand(k, v) for k, v in zip(prog["kinds"], vec)]
     out = E.Outcome()
     out.unsat, out.mism, out.calls, out.steps = [], [], 0, None
+    out.mutated = None
     r = Run()
     r.body_start = None
     r.res = None
+    r.pin_end = None
+
+    def pinned():
+        # everything created so far (operands and the CONDITIONS) is given; whatever the library creates from here on -
+        # including the wires of nested guards - is the prover's choice in the witness-space part
+        r.pin_end = len(H.R.vars)
 
     def body():
         r.body_start = len(H.R.vars)
@@ -75,11 +82,16 @@ def run_guarded(prog, vec, n, p, real, guards, ign=False, sites=False):
         if real == "none":
             res = body()
         elif real == "guarded-int":
-            res = rt.guarded(rt.PrivVal(guards[0]))(body)()
+            c_ = rt.PrivVal(guards[0])
+            pinned()
+            res = rt.guarded(c_)(body)()
         elif real == "guarded-bool":
-            res = rt.guarded(B.PrivValBool(guards[0]))(body)()
+            c_ = B.PrivValBool(guards[0])
+            pinned()
+            res = rt.guarded(c_)(body)()
         elif real == "nested":
             go, gi = B.PrivValBool(guards[0]), B.PrivValBool(guards[1])
+            pinned()
             res = rt.guarded(go)(lambda: rt.guarded(gi)(body)())()
         elif real == "ite-then":
             c, other = B.PrivValBool(guards[0]), rt.PrivVal(OTHER)
@@ -128,7 +140,7 @@ def _inst_from_trace(r, p, n):
     inst.p, inst.n = p, n
     inst.cons = list(H.R.cons)
     inst.nvars = len(H.R.vars)
-    inst.fixed = {i: H.R.vars[i - 1][1] % p for i in range(1, (r.body_start or 0) + 1)}
+    inst.fixed = {i: H.R.vars[i - 1][1] % p for i in range(1, (r.pin_end if r.pin_end is not None else (r.body_start or 0)) + 1)}
     inst.sites = list(H.R.sites)
     inst.assignment = {i + 1: v[1] % p for i, v in enumerate(H.R.vars)}
     inst.wires = [dict(lc.lc.lc) for lc in H.secrets_in(r.res)] if r.status == "ok" else []
@@ -271,18 +283,22 @@ def _task(t):
                     continue
                 iu = _inst_from_trace(u, p, n)
                 ru = result_set(iu, st)
-                g = run_guarded(prog, vec, n, p, "guarded-int", (1,), ign=ign, sites=True)
-                if g.status != "ok":
-                    continue
-                ig = _inst_from_trace(g, p, n)
-                st["e2_instances"] += 2
-                rg = result_set(ig, st)
-                if ru is None or rg is None:
-                    continue
-                if ru != rg:
-                    report("true-guard-changes-provable-results", "guarded-int", (1,), vec,
-                           "unguarded provable results %s, under a true guard %s (ignore_errors=%s)"
-                           % (sorted(map(str, ru))[:3], sorted(map(str, rg))[:3], ign), {"ign": ign})
+                for greal, gg in (("guarded-int", (1,)), ("nested", (1, 1))):
+                    if greal == "nested" and ign:
+                        continue
+                    g = run_guarded(prog, vec, n, p, greal, gg, ign=ign, sites=True)
+                    if g.status != "ok":
+                        continue
+                    ig = _inst_from_trace(g, p, n)
+                    st["e2_instances"] += 2
+                    rg = result_set(ig, st)
+                    if ru is None or rg is None:
+                        continue
+                    if ru != rg:
+                        report("true-guard-changes-provable-results", greal, gg, vec,
+                               "unguarded provable results %s, under %s %s (ignore_errors=%s)"
+                               % (sorted(map(str, ru))[:3], "a true guard" if len(gg) == 1 else "two nested true guards",
+                                  sorted(map(str, rg))[:3], ign), {"ign": ign})
     st["distinct"] = len(st["distinct"])
     return {"name": name, "st": st, "viols": viols}
 
